@@ -227,11 +227,13 @@ def run_xcp(root, argv, cwd=None, plan=None, umask=0o022, timeout=120, trace=Tru
     try:
         p = subprocess.run(cmd, cwd=cwd, env=env, stdout=subprocess.PIPE, stderr=subprocess.PIPE, timeout=timeout + 30, preexec_fn=pre)
         r.stderr = p.stderr.decode('utf-8', 'replace')[-4000:]
-        r.stdout = p.stdout.decode('utf-8', 'replace')[-2000:]
+        r.stdout_full = p.stdout.decode('utf-8', 'replace')
+        r.stdout = r.stdout_full[-2000:]
         rc = p.returncode
         hung = False
     except subprocess.TimeoutExpired:
         r.stderr, r.stdout, rc, hung = '', '', -9, True
+        r.stdout_full = ''
     r.wall = time.time() - t0
     r.trace, r.final = ([], {})
     if use_sup:
